@@ -45,6 +45,11 @@ pub enum Op {
     /// a trader takes the other side of the market's whole net position (order sized by bisection on a what-if copy), so that
     /// the vAMM's net position becomes exactly zero while positions stay open
     Balance { v: u8, t: u8 },
+    /// a run of 6-34 funding periods, each settled once (next block one period later, PayFunding)
+    Burst { v: u8, who: u8, n: u8 },
+    /// the oracle is moved so that the next funding settlement consumes about c x a holder's margin; the settlement follows at
+    /// the funding time and (three times out of four) an owner operation on the drained position after it
+    Drain { v: u8, t: u8, knob: u16 },
 }
 
 #[derive(Clone, Debug, Serialize, Deserialize, PartialEq, Eq, Hash)]
@@ -81,6 +86,8 @@ pub struct Weights {
     pub intruder: u32,
     pub edge_close: u32,
     pub balance: u32,
+    pub burst: u32,
+    pub drain: u32,
 }
 
 impl Weights {
@@ -111,6 +118,8 @@ impl Weights {
             intruder: 0,
             edge_close: 0,
             balance: 0,
+            burst: 0,
+            drain: 0,
         }
     }
 }
@@ -327,12 +336,14 @@ pub fn op_strategy(w: &Weights) -> BoxedStrategy<Op> {
         (w.intruder, 22),
         (w.edge_close, 23),
         (w.balance, 24),
+        (w.burst, 25),
+        (w.drain, 26),
     ]
     .into_iter()
     .filter(|(wt, _)| *wt > 0)
     .collect();
     let total: u32 = table.iter().map(|(wt, _)| *wt).sum();
-    (0u32..total.max(1), 0u8..6, 0u8..4, any::<bool>(), any::<u16>(), any::<u16>(), 0u8..12, 0u8..9)
+    (0u32..total.max(1), 0u8..6, 0u8..4, any::<bool>(), any::<u16>(), any::<u16>(), 0u8..16, 0u8..9)
         .prop_map(move |(k, t, v, b, k1, k2, s1, s2)| {
             let mut acc = 0u32;
             let mut kind = table[0].1;
@@ -368,7 +379,9 @@ pub fn op_strategy(w: &Weights) -> BoxedStrategy<Op> {
                 21 => Op::PushEdge { v, up: b, knob: k1 },
                 22 => Op::Intruder { v, who: s2, kind: s1, knob: k1 },
                 23 => Op::EdgeClose { v, t, knob: k1 },
-                _ => Op::Balance { v, t },
+                24 => Op::Balance { v, t },
+                25 => Op::Burst { v, who: s2, n: s1 },
+                _ => Op::Drain { v, t, knob: k1 },
             }
         })
         .boxed()
